@@ -49,11 +49,16 @@ Check C14_import_total : forall fetch g roots fuel,
   (Import.Model.fuel_for g (map (fun r => PdfV.Syn.Prim.PRef (fst r) (snd r)) roots) <= fuel)%nat ->
   Import.Theorems.ok_or_err (Import.Model.import_roots fetch g fuel roots Import.Model.st0).
 Check C14_guard_per_thread : cache_chain_per_thread = true.
-Check C14_fax_capacity : forall columns rows, columns < U32 -> rows < U32 ->
-  (columns * rows <= ISIZE_MAX -> fax_capacity columns rows = Ok (columns * rows)) /\
-  (ISIZE_MAX < columns * rows -> fax_capacity columns rows = Panic 1002).
-Check C14_fax_refuted : fax_capacity 4294967295 4294967295 = Panic 1002 /\ fax_check 0 0 = Panic 1003 /\
-  forall buf_len columns, 0 < columns -> fax_check buf_len columns = Ok (buf_len mod columns).
-Check C14_full_statement_refuted : ~ C14_full_statement.
+Check C14_fax_total : forall k columns rows decoded, columns < U32 -> rows < U32 ->
+  never_crashes (fax_decode k columns rows decoded).
+Check C14_fax_bounded : forall k columns rows decoded len, fax_decode k columns rows decoded = Ok len -> rows <> 0 ->
+  len = columns * rows /\ len <= 65535 * 65535.
+Check C14_full :
+  (forall rnd ops st, never_crashes (ps_exec rnd ops st)) /\
+  (forall domain_len range_len c0_len c1_len, never_crashes (fn2_load domain_len range_len c0_len c1_len)) /\
+  (forall items, never_crashes (differences items)) /\
+  (forall k columns rows decoded, columns < U32 -> rows < U32 -> never_crashes (fax_decode k columns rows decoded)).
+Check C14_fax_guards_in_source :
+  fax_k_guard = 1 /\ fax_columns_guard = 1 /\ fax_rows_guard = 1 /\ fax_no_assert = 1 /\ fax_no_capacity = 1.
 Check C14_guards_in_source : ps_roll_len_guard = 1 /\ ps_roll_mod_guard = 1 /\ ps_index_guard = 1 /\ ps_parse_get = 1 /\ diff_wrapping = 1.
 Check C14_budgets_in_source : (0 <? tree_depth) = true /\ (0 <? cs_depth) = true.
